@@ -3,21 +3,34 @@ package main
 import (
 	"fmt"
 
-	dtpb "github.com/google/fhir/go/proto/google/fhir/proto/r4/core/datatypes_go_proto"
-	"github.com/verily-src/fhirpath-go/internal/element/reference"
+	"github.com/verily-src/fhirpath-go/fhirpath/patch"
+	"github.com/verily-src/fhirpath-go/fhirpath/verifh/lib"
 	"github.com/verily-src/fhirpath-go/internal/fhir"
+	"google.golang.org/protobuf/proto"
 )
 
 func main() {
-	for _, u := range []string{"urn:uuid:00000000-0000-0000-0000-000001000001", "urn:uuid:5a17b7c2-e01c-4bc7-b973-31d4156b11d7", "urn:oid:1.2.000001000002"} {
-		ref := &dtpb.Reference{Type: fhir.URI("Patient"), Reference: &dtpb.Reference_Uri{Uri: fhir.String(u)}}
-		l, err := reference.LiteralInfoOf(ref)
-		t, ok := l.Type()
-		fmt.Println(u, "Of:", t, ok, err)
-		l2, err := reference.LiteralInfoFromURI(u)
-		t2, ok2 := l2.Type()
-		fmt.Println("   FromURI:", t2, ok2, err)
-		l3, err := reference.LiteralInfoOf(reference.Weak("Patient", u))
-		fmt.Println("   weak:", l3, err)
+	try := func(name string, res fhir.Resource, f func() error) {
+		before := proto.Clone(res)
+		err := f()
+		fmt.Printf("%-60s err=%v changed=%v\n", name, err, !proto.Equal(before, res))
 	}
+	p := lib.PatientWithContained()
+	try("Delete Patient.contained[0].id", p, func() error { return patch.Delete(p, "Patient.contained[0].id") })
+	p = lib.PatientWithContained()
+	try("Replace Patient.contained[0].status", p, func() error { return patch.Replace(p, "Patient.contained[0].status", fhir.Code("final")) })
+	p = lib.PatientWithContained()
+	try("Add Patient.contained[0] note", p, func() error {
+		return patch.Add(p, "Patient.contained[0]", "language", fhir.Code("en"), &patch.Options{})
+	})
+	p = lib.PatientWithContained()
+	try("Delete Patient.contained[0]", p, func() error { return patch.Delete(p, "Patient.contained[0]") })
+	b := lib.Bundle()
+	try("Delete Bundle.entry[0].resource.id", b, func() error { return patch.Delete(b, "Bundle.entry[0].resource.id") })
+	b = lib.Bundle()
+	try("Replace Bundle.entry[0].resource.active", b, func() error { return patch.Replace(b, "Bundle.entry[0].resource.active", fhir.Boolean(false)) })
+	b = lib.Bundle()
+	try("Delete Bundle.entry[0].resource", b, func() error { return patch.Delete(b, "Bundle.entry[0].resource") })
+	b = lib.Bundle()
+	try("Delete Bundle.entry[0].resource.name[0]", b, func() error { return patch.Delete(b, "Bundle.entry[0].resource.name[0]") })
 }
